@@ -212,6 +212,10 @@ def catalogue(T):
                 xs = xmax * np.concatenate([-ab * lin(0.9, 0.05, 8), geo(0.01, 3.0, 16)])
                 out.append(("LogSinh(loga=%g,logb=%g,xmax=%g)" % (loga, logb, xmax),
                             mk("LogSinh", {"loga": loga, "logb": logb}, {"xmax": xmax}), xs, []))
+    # large arguments of the hyperbolic sine (a + b x / xmax up to ~1000, where sinh itself overflows): the mapping is almost linear there
+    for loga, logb, xmax, top in ((-1.0, 4.5, 1.0, 12.0), (0.0, 2.0, 10.0, 150.0), (-3.0, 0.0, 2.0, 900.0)):
+        out.append(("LogSinh(loga=%g,logb=%g,xmax=%g,x/xmax<=%g)" % (loga, logb, xmax, top),
+                    mk("LogSinh", {"loga": loga, "logb": logb}, {"xmax": xmax}), xmax * geo(0.5, top, 16), []))
     # (exponents below the 1e-10 switch take the lam = 0 branch; 1e-10 < |lam| < 1e-3 is outside the conditioning region)
     for lam in (0.0, 1e-3, -1e-3, 0.1, -0.1, 1.0, -1.0, 3.0, 5e-11, -5e-11, 3e-13):
         for xmax in (1.0, 10.0):
